@@ -1,0 +1,48 @@
+//go:build verif
+
+package core
+
+import (
+	pb "github.com/anoideaopen/foundation/proto"
+)
+
+// This file is compiled only with the build tag "verif". It exports unexported pure
+// functions to the external verification harness; it adds no behaviour.
+
+// VerifSetNonce exposes setNonce.
+func VerifSetNonce(nonce uint64, lastNonce []uint64, nonceTTL uint) ([]uint64, error) {
+	return setNonce(nonce, lastNonce, nonceTTL)
+}
+
+// VerifDefaultNonceTTL exposes defaultNonceTTL.
+const VerifDefaultNonceTTL = defaultNonceTTL
+
+// VerifInvocation mirrors invocationDetails.
+type VerifInvocation struct {
+	ChaincodeNameArg string
+	ChannelNameArg   string
+	NonceStringArg   string
+	SignatureArgs    []string
+	SignersCount     int
+}
+
+// VerifParseInvocationDetails exposes parseInvocationDetails.
+func VerifParseInvocationDetails(argCount int, args []string) (*VerifInvocation, error) {
+	d, err := parseInvocationDetails(argCount, args)
+	if err != nil {
+		return nil, err
+	}
+	return &VerifInvocation{
+		ChaincodeNameArg: d.chaincodeNameArg,
+		ChannelNameArg:   d.channelNameArg,
+		NonceStringArg:   d.nonceStringArg,
+		SignatureArgs:    d.signatureArgs,
+		SignersCount:     d.signersCount,
+	}, nil
+}
+
+// VerifNewQueryStub exposes newQueryStub's result as the shim interface.
+var VerifNewQueryStub = newQueryStub
+
+// VerifKeyTypes is a convenience alias used by the harness.
+type VerifKeyTypes = []pb.KeyType
